@@ -3,7 +3,14 @@
 // the returned options plus behaviour probes that reveal the internal toggles.
 //
 // Input (argv[1]: case file), one case per line:
-//   <id> <layer> <sw> <out_opts|-> <cap1> <cap2>
+//   <id> <layer> <sw> <out_opts|-> <cap1> <cap2> [<ord>]
+//   vfsm = like vfs, but the backend is mounted AFTER the first INIT (Vfs::mount initialises it with the stored out_opts)
+//   pt bits 7-8: dax_file_size  0 = Some(0), 1 = None, 2 = Some(2^40)
+//   ord 0:  init(cap1); probes; init(cap1) [=R]; destroy; init(cap2); probes
+//   ord 1:  destroy; init(cap1); probes; destroy; destroy; init(cap2); init(cap2) [=R]; probes
+//   extra probes (twins of the first ones): RL/RD = release/releasedir (ok | enosys | err:N), C = create of a new file
+//   (h | nh | err:N), CWB = writeback rewrite seen on the descriptor create produced, KC = kill-priv through
+//   create(O_TRUNC, FOPEN_IN_KILL_SUIDGID) on an existing setuid file, KS = kill-priv through setattr(SIZE|KILL_SUIDGID)
 // layer / switch bits:
 //   vfs : b0 no_open  b1 no_opendir  b2 no_writeback  b3 killpriv_v2     (VfsOptions; out_opts = "-" keeps the default)
 //         backend: PassthroughFs (do_import = false, cache=always, dax_file_size = 0) mounted at "/"
@@ -20,7 +27,7 @@
 //   KP  = open(O_WRONLY|O_TRUNC, FOPEN_IN_KILL_SUIDGID) on a setuid file cleared the setuid bit
 //   DAX = lookup answered with FUSE_ATTR_DAX
 #![allow(clippy::all)]
-use fuse_backend_rs::abi::fuse_abi::FsOptions;
+use fuse_backend_rs::abi::fuse_abi::{stat64, CreateIn, FsOptions, SetattrValid};
 use fuse_backend_rs::api::filesystem::{Context, FileSystem};
 use fuse_backend_rs::api::{Vfs, VfsOptions};
 use fuse_backend_rs::overlayfs::config::Config as OvlConfig;
@@ -69,6 +76,10 @@ fn prep_dir(d: &Path) {
     std::fs::write(d.join("f"), b"abc").unwrap();
     std::fs::write(d.join("s"), b"abcdef").unwrap();
     std::fs::set_permissions(d.join("s"), std::fs::Permissions::from_mode(0o4755)).unwrap();
+    for n in ["s2", "s3"] {
+        std::fs::write(d.join(n), b"abcdef").unwrap();
+        std::fs::set_permissions(d.join(n), std::fs::Permissions::from_mode(0o4755)).unwrap();
+    }
 }
 
 fn pt_config(dir: &Path, sw: u64) -> Config {
@@ -85,7 +96,11 @@ fn pt_config(dir: &Path, sw: u64) -> Config {
             3 => CachePolicy::Metadata,
             _ => CachePolicy::Auto,
         },
-        dax_file_size: Some(0),
+        dax_file_size: match (sw >> 7) & 3 {
+            1 => None,
+            2 => Some(1 << 40),
+            _ => Some(0),
+        },
         ..Default::default()
     }
 }
@@ -98,7 +113,26 @@ fn fmt_init(r: io::Result<FsOptions>) -> String {
 }
 
 // the probes only need lookup / open / opendir / release / releasedir / forget with u64 inodes and handles
-fn probes<F>(fs: &F, scratch: &Path) -> String
+fn suid_after_truncate(scratch: &Path, name: &str) -> String {
+    for sub in ["", "upper", "lower"] {
+        let p = scratch.join(sub).join(name);
+        if let Ok(m) = std::fs::metadata(&p) {
+            if m.len() == 0 {
+                return if m.permissions().mode() & 0o4000 == 0 { "1" } else { "0" }.to_string();
+            }
+        }
+    }
+    "na".to_string()
+}
+fn fmt_unit(r: &io::Result<()>) -> String {
+    match r {
+        Ok(()) => "ok".to_string(),
+        Err(e) if errno_of(e) == libc::ENOSYS => "enosys".to_string(),
+        Err(e) => format!("err:{}", errno_of(e)),
+    }
+}
+
+fn probes<F>(fs: &F, scratch: &Path, round: u32) -> String
 where
     F: FileSystem<Inode = u64, Handle = u64>,
 {
@@ -120,15 +154,12 @@ where
     // plain open
     let o = fs.open(&ctx, ino_f, libc::O_RDONLY as u32, 0).map(|(h, _, _)| (h, true));
     let o_s = fmt_open(&o);
-    if let Ok((Some(h), _)) = o {
-        let _ = fs.release(&ctx, ino_f, 0, h, false, false, None);
-    }
+    // twin: RELEASE (of the handle just obtained, or of handle 0 as a no-open client sends it)
+    let rl = fmt_unit(&fs.release(&ctx, ino_f, 0, if let Ok((Some(h), _)) = o { h } else { 0 }, false, false, None));
     // opendir
     let d = fs.opendir(&ctx, root, libc::O_RDONLY as u32).map(|(h, _)| (h, true));
     let d_s = fmt_open(&d);
-    if let Ok((Some(h), _)) = d {
-        let _ = fs.releasedir(&ctx, root, 0, h);
-    }
+    let rd = fmt_unit(&fs.releasedir(&ctx, root, 0, if let Ok((Some(h), _)) = d { h } else { 0 }));
     // writeback rewrite of open flags
     let before = fds();
     let w = fs.open(&ctx, ino_f, (libc::O_WRONLY | libc::O_APPEND) as u32, 0);
@@ -196,35 +227,124 @@ where
     if ino_f != 0 {
         fs.forget(&ctx, ino_f, 1);
     }
-    format!("O={} D={} WB={} KP={} DAX={}", o_s, d_s, wb, kp, dax)
+    // twin of open: CREATE of a new file (handle or not; writeback rewrite of the flags it was opened with)
+    let newname = format!("n{}", round);
+    let cname = CString::new(newname.clone()).unwrap();
+    let before = fds();
+    let cr = fs.create(
+        &ctx,
+        root,
+        &cname,
+        CreateIn { flags: (libc::O_WRONLY | libc::O_APPEND) as u32, mode: 0o644, umask: 0, fuse_flags: 0 },
+    );
+    let (c_s, cwb) = match &cr {
+        Ok((_, h, _, _)) => {
+            let mut v = "na".to_string();
+            if h.is_some() {
+                let after = fds();
+                for fd in after.difference(&before) {
+                    if let Some((fl, target)) = fd_flags(*fd) {
+                        // (the O_PATH descriptor of the new inode also points at the file: not the one create opened)
+                        if fl & libc::O_PATH == 0 && target.starts_with(&*scratch.to_string_lossy()) && target.ends_with(&format!("/{}", newname)) {
+                            let rdwr = fl & libc::O_ACCMODE == libc::O_RDWR;
+                            let app = fl & libc::O_APPEND != 0;
+                            v = if rdwr && !app { "1".to_string() } else if !rdwr && app { "0".to_string() } else { format!("mixed:{:o}", fl) };
+                        }
+                    }
+                }
+            }
+            (if h.is_some() { "h" } else { "nh" }.to_string(), v)
+        }
+        Err(e) => (format!("err:{}", errno_of(e)), "na".to_string()),
+    };
+    if let Ok((e, h, _, _)) = cr {
+        if let Some(h) = h {
+            let _ = fs.release(&ctx, e.inode, 0, h, false, false, None);
+        }
+        fs.forget(&ctx, e.inode, 1);
+    }
+    // twin of the kill-priv open: CREATE on an existing setuid file with O_TRUNC
+    let name_s2 = CString::new("s2").unwrap();
+    let kc = match fs.create(
+        &ctx,
+        root,
+        &name_s2,
+        CreateIn { flags: (libc::O_WRONLY | libc::O_TRUNC) as u32, mode: 0o644, umask: 0, fuse_flags: FOPEN_IN_KILL_SUIDGID },
+    ) {
+        Ok((e, h, _, _)) => {
+            let v = suid_after_truncate(scratch, "s2");
+            if let Some(h) = h {
+                let _ = fs.release(&ctx, e.inode, 0, h, false, false, None);
+            }
+            fs.forget(&ctx, e.inode, 1);
+            v
+        }
+        Err(_) => "na".to_string(),
+    };
+    // twin: SETATTR(size = 0) with FATTR_KILL_SUIDGID
+    let name_s3 = CString::new("s3").unwrap();
+    let ks = match fs.lookup(&ctx, root, &name_s3) {
+        Ok(e) => {
+            let mut attr: stat64 = unsafe { std::mem::zeroed() };
+            attr.st_size = 0;
+            let v = match fs.setattr(&ctx, e.inode, attr, None, SetattrValid::SIZE | SetattrValid::KILL_SUIDGID) {
+                Ok(_) => suid_after_truncate(scratch, "s3"),
+                Err(_) => "na".to_string(),
+            };
+            fs.forget(&ctx, e.inode, 1);
+            v
+        }
+        Err(_) => "na".to_string(),
+    };
+    format!(
+        "O={} D={} WB={} KP={} DAX={} RL={} RD={} C={} CWB={} KC={} KS={}",
+        o_s, d_s, wb, kp, dax, rl, rd, c_s, cwb, kc, ks
+    )
 }
 
 fn reset_files(scratch: &Path, layer: &str) {
     // restore the setuid file for the next round of probes
     let dirs: Vec<PathBuf> = if layer == "ovl" { vec![scratch.join("upper"), scratch.join("lower")] } else { vec![scratch.to_path_buf()] };
     for d in dirs {
-        let p = d.join("s");
-        if p.exists() {
-            std::fs::write(&p, b"abcdef").unwrap();
-            std::fs::set_permissions(&p, std::fs::Permissions::from_mode(0o4755)).unwrap();
+        for n in ["s", "s2", "s3"] {
+            let p = d.join(n);
+            if p.exists() {
+                std::fs::write(&p, b"abcdef").unwrap();
+                std::fs::set_permissions(&p, std::fs::Permissions::from_mode(0o4755)).unwrap();
+            }
         }
     }
 }
 
-fn sequence<F>(fs: &F, scratch: &Path, layer: &str, cap1: u64, cap2: u64) -> String
+fn sequence<F>(fs: &F, scratch: &Path, layer: &str, cap1: u64, cap2: u64, ord: u32, after_first_init: &dyn Fn()) -> String
 where
     F: FileSystem<Inode = u64, Handle = u64>,
 {
     let c1 = FsOptions::from_bits_truncate(cap1);
     let c2 = FsOptions::from_bits_truncate(cap2);
-    let i1 = fmt_init(fs.init(c1));
-    let p1 = probes(fs, scratch);
-    let r = fmt_init(fs.init(c1));
-    fs.destroy();
-    reset_files(scratch, layer);
-    let i2 = fmt_init(fs.init(c2));
-    let p2 = probes(fs, scratch);
-    format!("I={} {} R={} | I={} {}", i1, p1, r, i2, p2)
+    if ord == 0 {
+        let i1 = fmt_init(fs.init(c1));
+        after_first_init();
+        let p1 = probes(fs, scratch, 1);
+        let r = fmt_init(fs.init(c1));
+        fs.destroy();
+        reset_files(scratch, layer);
+        let i2 = fmt_init(fs.init(c2));
+        let p2 = probes(fs, scratch, 2);
+        format!("I={} {} R={} | I={} {}", i1, p1, r, i2, p2)
+    } else {
+        fs.destroy();
+        let i1 = fmt_init(fs.init(c1));
+        after_first_init();
+        let p1 = probes(fs, scratch, 1);
+        fs.destroy();
+        fs.destroy();
+        reset_files(scratch, layer);
+        let i2 = fmt_init(fs.init(c2));
+        let r = fmt_init(fs.init(c2));
+        let p2 = probes(fs, scratch, 2);
+        format!("I={} {} R={} | I={} {}", i1, p1, r, i2, p2)
+    }
 }
 
 fn new_layer(dir: &Path) -> io::Result<Arc<BoxedLayer>> {
@@ -237,7 +357,7 @@ fn new_layer(dir: &Path) -> io::Result<Arc<BoxedLayer>> {
     Ok(Arc::new(fs as BoxedLayer))
 }
 
-fn run_case(scratch: &Path, layer: &str, sw: u64, out_opts: Option<u64>, cap1: u64, cap2: u64) -> io::Result<String> {
+fn run_case(scratch: &Path, layer: &str, sw: u64, out_opts: Option<u64>, cap1: u64, cap2: u64, ord: u32) -> io::Result<String> {
     match layer {
         "pt" => {
             prep_dir(scratch);
@@ -247,9 +367,9 @@ fn run_case(scratch: &Path, layer: &str, sw: u64, out_opts: Option<u64>, cap1: u
             if !do_import {
                 fs.import()?; // what Vfs::mount does through BackendFileSystem::mount
             }
-            Ok(sequence(&fs, scratch, layer, cap1, cap2))
+            Ok(sequence(&fs, scratch, layer, cap1, cap2, ord, &|| {}))
         }
-        "vfs" => {
+        "vfs" | "vfsm" => {
             prep_dir(scratch);
             let mut o = VfsOptions::default();
             o.no_open = sw & 1 != 0;
@@ -264,8 +384,16 @@ fn run_case(scratch: &Path, layer: &str, sw: u64, out_opts: Option<u64>, cap1: u
             let cfg = pt_config(scratch, 1 << 5);
             let fs = PassthroughFs::<()>::new(cfg)?;
             fs.import()?;
-            vfs.mount(Box::new(fs), "/").map_err(|e| io::Error::new(io::ErrorKind::Other, format!("{:?}", e)))?;
-            Ok(sequence(&VfsU64(&vfs), scratch, layer, cap1, cap2))
+            let pending = std::cell::RefCell::new(Some(fs));
+            let mount = || {
+                if let Some(fs) = pending.borrow_mut().take() {
+                    vfs.mount(Box::new(fs), "/").expect("mount");
+                }
+            };
+            if layer == "vfs" {
+                mount();
+            }
+            Ok(sequence(&VfsU64(&vfs), scratch, layer, cap1, cap2, ord, &mount))
         }
         "ovl" => {
             let _ = std::fs::remove_dir_all(scratch);
@@ -292,7 +420,7 @@ fn run_case(scratch: &Path, layer: &str, sw: u64, out_opts: Option<u64>, cap1: u
             if !do_import {
                 fs.import()?;
             }
-            Ok(sequence(&fs, scratch, layer, cap1, cap2))
+            Ok(sequence(&fs, scratch, layer, cap1, cap2, ord, &|| {}))
         }
         _ => Err(io::Error::new(io::ErrorKind::Other, "bad layer")),
     }
@@ -336,6 +464,25 @@ impl<'a> FileSystem for VfsU64<'a> {
     ) -> io::Result<()> {
         self.0.release(ctx, inode.into(), flags, handle.into(), flush, flock_release, lock_owner)
     }
+    fn create(
+        &self,
+        ctx: &Context,
+        parent: u64,
+        name: &std::ffi::CStr,
+        args: CreateIn,
+    ) -> io::Result<(fuse_backend_rs::api::filesystem::Entry, Option<u64>, fuse_backend_rs::abi::fuse_abi::OpenOptions, Option<u32>)> {
+        self.0.create(ctx, parent.into(), name, args).map(|(e, h, o, p)| (e, h.map(Into::into), o, p))
+    }
+    fn setattr(
+        &self,
+        ctx: &Context,
+        inode: u64,
+        attr: stat64,
+        handle: Option<u64>,
+        valid: SetattrValid,
+    ) -> io::Result<(stat64, std::time::Duration)> {
+        self.0.setattr(ctx, inode.into(), attr, handle.map(Into::into), valid)
+    }
     fn opendir(&self, ctx: &Context, inode: u64, flags: u32) -> io::Result<(Option<u64>, fuse_backend_rs::abi::fuse_abi::OpenOptions)> {
         self.0.opendir(ctx, inode.into(), flags).map(|(h, o)| (h.map(Into::into), o))
     }
@@ -362,8 +509,9 @@ fn main() {
         let oo: Option<u64> = if t[3] == "-" { None } else { Some(t[3].parse().unwrap()) };
         let c1: u64 = t[4].parse().unwrap();
         let c2: u64 = t[5].parse().unwrap();
+        let ord: u32 = if t.len() > 6 { t[6].parse().unwrap() } else { 0 };
         let scratch = base.join("c");
-        let r = catch_unwind(AssertUnwindSafe(|| run_case(&scratch, &layer, sw, oo, c1, c2)));
+        let r = catch_unwind(AssertUnwindSafe(|| run_case(&scratch, &layer, sw, oo, c1, c2, ord)));
         match r {
             Ok(Ok(s)) => writeln!(out, "{} {}", id, s).unwrap(),
             Ok(Err(e)) => writeln!(out, "{} setup-error {:?}", id, e).unwrap(),
